@@ -5,7 +5,7 @@ PROP = dict(
     spec_ops=("bs.spec",),
     rule="operation sequences of 20..200 random items over all 28 read/write/skip/grow/append/copy methods on "
          "capacities 0..2000 (boundaries over-weighted), widths 0..64 biased to 0/1/7/8/9/55..58/63/64, big-int widths "
-         "1..257, unary up to 100, plus the same vocabulary on fresh and BOC-parsed cells with reference slots; "
+         "1..257, unary up to 100, plus the same vocabulary on fresh and BOC-parsed cells with reference slots, and CopyRemaining after k NextRef for every reference count 0..4, every k, every bit-cursor alignment, with ResetCounters interleaved; "
          "non-trivial = distinct sequence containing at least one read at a cursor that is not byte aligned and "
          "(an operation that returns an error or a read wider than 56 bits). Fast-path grid: ReadUint/PickUint/ReadInt at "
          "every offset of a 128-byte buffer for widths {0,1,7,8,9,16,55..58,63,64} (thorough: every width 0..64) x 5 (7) "
@@ -33,9 +33,10 @@ PROP = dict(
         "a nil slot in the middle are not described",
     ],
     partial=[
-        "On/Off, the cell operations CopyRemaining/NextRef/ResetCounters, SetTopUppedArray on non-canonical arrays "
+        "On/Off, NextRef beyond its limits, SetTopUppedArray on non-canonical arrays "
         "(missing tag => error), lower-case and malformed Fift text are modelled and checked by correspondence and by "
-        "go.topup/go.refs/go.parsedwrite/go.fiftreject, with theorems only for AddRef/NextRef limits (ref_overflow)",
+        "go.topup/go.refs/go.copyrem/go.parsedwrite/go.fiftreject (cells: theorems ref_overflow, copyRemaining_spec, "
+        "copyRemaining_after_reset, parsed_cell_inv)",
         "ops_sequence is stated for well-formed operations (Op.WF): uint64/int64 argument ranges, WriteInt width <= 64, "
         "WriteBigInt with a representable value and width >= 1, WriteBigUint with a non-negative value, source bit strings "
         "that hold their bits; operations outside WF are covered by the correspondence only",
@@ -58,7 +59,7 @@ PROP = dict(
                "(ReadBigUint partial byte, ReadBits dirty tail, parsed-cell buffer, WriteInt width 0/1) and the non-ASCII "
                "Fift-hex acceptance were reproduced on the Go code, repaired by fix: commits, and the model describes the "
                "repaired code; witnesses of the old behaviour are theorems about the `...Old` definitions and corpus lines. "
-               "Also theorems: ToFiftHex = hex text of the abstract bits and BitStringFromFiftHex(ToFiftHex s) = the same bits for every length and content (fifthex_roundtrip); the first ceil(len/8) buffer bytes are the canonical packing of the bits (canonical_buffer). GetTopUppedArray = canonical topped-up bytes, SetTopUppedArray inverts it, and the repaired Cell.setTopUppedArray establishes the invariant with capacity 1023 for any parsed data (parsed_cell_inv). Not theorems: On/Off, CopyRemaining, lower-case / malformed Fift text (correspondence + direct oracles only).",
+               "Also theorems: ToFiftHex = hex text of the abstract bits and BitStringFromFiftHex(ToFiftHex s) = the same bits for every length and content (fifthex_roundtrip); the first ceil(len/8) buffer bytes are the canonical packing of the bits (canonical_buffer). GetTopUppedArray = canonical topped-up bytes, SetTopUppedArray inverts it, and the repaired Cell.setTopUppedArray establishes the invariant with capacity 1023 for any parsed data (parsed_cell_inv). CopyRemaining = unread bits + unread references with the source cursors unchanged (copyRemaining_spec). Not theorems: On/Off, lower-case / malformed Fift text (correspondence + direct oracles only).",
     level_note="trusted: Lean kernel; the hand model's fidelity to boc/bitString.go and boc/cell.go is checked, not proved "
                "(>= 15 000 compared lines per quick run, 196 000 thorough, incl. the exhaustive offset x width grid); "
                "translator X4 for minBitsRequired; Go runtime semantics listed in trusted_base",
